@@ -113,6 +113,25 @@ func expectMerge(hi, lo node) node {
 	return node{true, out}
 }
 
+// pruneNil drops null leaves at every depth; a node that is null itself becomes absent.
+func pruneNil(n node) node {
+	if !n.present || n.v == nil {
+		return node{}
+	}
+	t, ok := n.v.(map[string]interface{})
+	if !ok {
+		return n
+	}
+	out := map[string]interface{}{}
+	for k, v := range t {
+		c := pruneNil(node{true, v})
+		if c.present {
+			out[k] = c.v
+		}
+	}
+	return node{true, out}
+}
+
 func asTable(n node) map[string]interface{} {
 	if t, ok := n.v.(map[string]interface{}); ok && n.present {
 		return t
@@ -165,7 +184,7 @@ func H04Coalesce() {
 func H11Scope() {
 	d := vBound("depth", 2)
 	// global subtree (one key "g") in: user values, parent defaults, A's defaults, B's defaults
-	var ug, pg, ag, bg, uax, ax, px node
+	var ug, pg, ag, bg, uax, pax, ax, px node
 	if ndBool("globals") {
 		// globals part: user / parent / A / B settings of global.g
 		ug = ndNode("user.global.g", d, true)
@@ -175,6 +194,16 @@ func H11Scope() {
 	} else {
 		// sections part: the parent's section for A, A's default, the parent's own x
 		uax = ndNode("user.A.x", 1, true)
+		pax = ndNode("parent.A.x", 1, true) // the parent chart's own values.yaml section for A
+		// one combination is left out as ambiguous under the property's wording: the parent's
+		// section holds a null or a scalar at a key for which the USER supplies a table. helm
+		// merges (user ⊕ parent) ⊕ subchart default, so the user's table shadows the parent's
+		// null/scalar and the subchart's default keys reappear under it; read per source ("null
+		// removes a default", "scalars replace") the default table would be gone.
+		if _, userTable := uax.v.(map[string]interface{}); userTable && pax.present {
+			_, parentTable := pax.v.(map[string]interface{})
+			vAssume(parentTable)
+		}
 		ax = ndNode("A.x", 1, true)
 		px = ndNode("parent.x", 0, true)
 		ug = ndNode("user.global.g", 0, true)
@@ -198,6 +227,9 @@ func H11Scope() {
 	pDefs := mk(pg, nil)
 	if px.present {
 		pDefs["x"] = px.v
+	}
+	if pax.present {
+		pDefs["A"] = map[string]interface{}{"x": pax.v}
 	}
 	user := mk(ug, nil)
 	if uax.present {
@@ -239,11 +271,14 @@ func H11Scope() {
 		vAssert("scope/B-global-independent-of-sibling", reflect.DeepEqual(bgv, wantBG.v))
 	}
 	// A's non-global x: parent's section for A over A's default; the parent's own x never shows up in A
-	wantAX := expectMerge(uax, ax)
+	// precedence: user's section for A > the parent chart's section for A > A's own default
+	// (a key that is present with a null value and an absent key are the same thing to a template)
+	wantAX := pruneNil(expectMerge(uax, expectMerge(pax, ax)))
 	axv, axp := aVals["x"]
-	vAssert("scope/A-x-presence", axp == wantAX.present)
-	if axp {
-		vAssert("scope/A-x-parent-section-over-default", reflect.DeepEqual(axv, wantAX.v))
+	gotAX := pruneNil(node{axp, axv})
+	vAssert("scope/A-x-presence", gotAX.present == wantAX.present)
+	if gotAX.present {
+		vAssert("scope/A-x-parent-section-over-default", reflect.DeepEqual(gotAX.v, wantAX.v))
 	}
 	_, leak := bVals["x"]
 	vAssert("scope/parent-nonglobal-not-visible-in-subchart", !leak)
